@@ -88,8 +88,13 @@ func c18Key(uri string) string { return "GET " + c18Host + " " + uri }
 // c18Basics: sequential purge semantics on all caches, with the store inspected
 func c18Basics(r *hx.Run, cw *c18World, ps *plans, rnd *rand.Rand, n int) {
 	for i := 0; i < n && !r.TooMany(); i++ {
-		uri := fmt.Sprintf("/c18b/%d/%d", r.Seed, i)
-		other := uri + "-neighbour"
+		// the key is "METHOD host request-URI" with the URI exactly as the client sent it (escapes kept)
+		shape := []string{"", "", "?q=a%20b", "?q=c+d&x=1", "/a%2Fb.txt", "/caf%C3%A9?x=%26y", "?pct=100%25"}[rnd.Intn(7)]
+		uri := fmt.Sprintf("/c18b/%d/%d", r.Seed, i) + shape
+		other := fmt.Sprintf("/c18b/%d/%d-neighbour", r.Seed, i) + shape
+		if shape != "" {
+			r.Add("purged_keys_with_escapes_or_plus", 1)
+		}
 		a := ans{Kind: "cacheable", T: 50}
 		if rnd.Intn(4) == 0 {
 			a = ans{Kind: "nocache"}
